@@ -716,6 +716,21 @@ func (w *World) EnvStep() error {
 				}
 				continue
 			}
+			if w.Sc.Cfg.Env == "lagpod" && !w.slow[br.Name] {
+				// the view of lagging informers: the binder has bound the pod and marked the request Succeeded, the
+				// scheduler has seen the BindRequest update but not yet the pod update (spec.nodeName) - for one cycle
+				// the request says Succeeded while the pod still looks unbound; the next environment step catches up
+				if w.slow == nil {
+					w.slow = map[string]bool{}
+				}
+				w.slow[br.Name] = true
+				brc := br.DeepCopy()
+				brc.Status.Phase = schedulingv1alpha2.BindRequestPhaseSucceeded
+				if _, err := w.Kai.SchedulingV1alpha2().BindRequests(Namespace).UpdateStatus(ctx, brc, metav1.UpdateOptions{}); err != nil {
+					return err
+				}
+				continue
+			}
 			delete(w.slow, br.Name)
 			pod = pod.DeepCopy()
 			pod.Spec.NodeName = br.Spec.SelectedNode
